@@ -35,9 +35,20 @@ Print Assumptions macroman_inverse.
    decoder returns the string. *)
 Theorem utf16_roundtrip :
   forall s, forallb is_scalar s = true ->
-    M_utf16_encode s = S_utf16be s /\ M_utf16_decode (M_utf16_encode s) = s.
-Proof. intros s H. split; [now apply utf16_encode_is_spec | now apply utf16_roundtrip_lemma]. Qed.
+    M_utf16_encode s = S_utf16be s /\ M_utf16_decode (M_utf16_encode s) = s /\
+    wf_utf16be (M_utf16_encode s) = true.
+Proof.
+  intros s H. split; [now apply utf16_encode_is_spec|].
+  split; [now apply utf16_roundtrip_lemma | now apply utf16_encode_wellformed].
+Qed.
 Print Assumptions utf16_roundtrip.
+
+(* The other direction: every well-formed UTF-16BE byte string (even length,
+   surrogates properly paired) is returned unchanged by Decode then Encode. *)
+Theorem utf16_inverse_on_bytes :
+  forall b, wf_utf16be b = true -> M_utf16_encode (M_utf16_decode b) = b.
+Proof. exact utf16_encode_decode. Qed.
+Print Assumptions utf16_inverse_on_bytes.
 
 (* utf16Decode is total and returns scalar values only, whatever the bytes. *)
 Theorem utf16_decode_total : forall b, forallb is_scalar (M_utf16_decode b) = true.
